@@ -446,6 +446,31 @@ pub fn set_sample_name(i: usize) -> String {
 
 /// materialise; every sample is guaranteed >= 1 window (a filler record is appended if not)
 pub fn materialise_set(c: &SetCase) -> (Vec<Vec<u8>>, Vec<(String, Vec<Vec<u8>>)>) {
+    let (anc, mut out) = materialise_set_plain(c);
+    // In half of the sets one sample also carries a small multi-copy family: the first window of
+    // the ancestor with 2, 3 or all 4 middle bases, as separate records. Its stored symbol for that
+    // split k-mer is then an ambiguity code (N for all four), a *present* symbol that every
+    // operation on tables must carry along like a base. (A pure function of the case.)
+    let first = anc.iter().find_map(|r| crate::model::windows(r, c.k).into_iter().next().map(|(_, w)| w));
+    if let Some(w) = first {
+        let sel = c.k / 2 + out.len() * 5 + anc.iter().map(|r| r.len()).sum::<usize>();
+        let copies = [0usize, 4, 0, 2, 4, 0, 3, 0][sel % 8];
+        if copies > 0 {
+            let j = (sel / 8) % out.len();
+            let h = (c.k - 1) / 2;
+            let start = crate::model::BASES.iter().position(|b| *b == w[h].to_ascii_uppercase()).unwrap_or(0);
+            for x in 0..copies {
+                let mut r = w.clone();
+                r[h] = crate::model::BASES[(start + x) % 4];
+                out[j].1.push(r);
+            }
+        }
+    }
+    (anc, out)
+}
+
+/// the generated set without the multi-copy family (for checks whose domain excludes ambiguity codes)
+pub fn materialise_set_plain(c: &SetCase) -> (Vec<Vec<u8>>, Vec<(String, Vec<Vec<u8>>)>) {
     let (anc, samples) = materialise_samples(&c.anc, &c.samples, c.k);
     let mut out = Vec::new();
     for (i, mut recs) in samples.into_iter().enumerate() {
